@@ -2307,6 +2307,8 @@ def parse_item(line_tokens):
             alignment = int(alignment, base=0)
         except ValueError:
             raise AssemblerError('alignment must be an integer', line)
+        if alignment == 0:
+            raise AssemblerError('alignment must not be zero', line)
         return Align(line, alignment)
     # r-type instructions
     elif head in R_TYPE_INSTRUCTIONS:
